@@ -8,6 +8,7 @@ import (
 
 	"bfeverif/harness/internal/vh"
 	"github.com/bfenetworks/bfe/bfe_basic"
+	"github.com/bfenetworks/bfe/bfe_http"
 	"github.com/bfenetworks/bfe/bfe_modules/mod_block"
 	"github.com/bfenetworks/bfe/bfe_util/ipdict"
 )
@@ -37,6 +38,22 @@ func execBlockGlobal(f []string) string {
 		return "bad-op"
 	}
 	rs := splitList(f[1], "+")
+	if histMode == "load" {
+		accIP = nil
+		for _, r := range rs {
+			ab := strings.Split(r, "-")
+			if len(ab) != 2 {
+				return "bad-op"
+			}
+			lo, ok1 := ip16(ab[0])
+			hi, ok2 := ip16(ab[1])
+			if !ok1 || !ok2 {
+				return "bad-op"
+			}
+			accIP = append(accIP, [2]net.IP{lo, hi})
+		}
+		return "parsed"
+	}
 	items, err := ipdict.NewIPItems(len(rs), len(rs))
 	if err != nil {
 		return "err:conf"
@@ -71,7 +88,10 @@ func execBlockGlobal(f []string) string {
 		rip = v4
 	}
 	s := &bfe_basic.Session{RemoteAddr: &net.TCPAddr{IP: rip, Port: 4567}}
-	return render(blockMod.Accept(items, s), nil)
+	if histMode == "req" {
+		return renderAccept(blockMod.RunAccept(s), s)
+	}
+	return renderAccept(blockMod.Accept(items, s), s)
 }
 
 // br <G>|<P>|<global rules>|<product rules>|<cip8hex>   rule: lo8hex-hi8hex,cmdhex
@@ -127,11 +147,19 @@ func execBlockReq(f []string) string {
 	if blockMod == nil {
 		blockMod = mod_block.VerifNew()
 	}
+	switch histMode {
+	case "load":
+		accBlock = table
+		return "parsed"
+	case "req":
+		ret, resp := blockMod.RunRequest(req)
+		return renderBlockReq(ret, resp, req)
+	}
 	ret, resp, err := blockMod.Request(table, req)
 	if err != nil {
 		return "err:conf"
 	}
-	return render(ret, resp)
+	return renderBlockReq(ret, resp, req)
 }
 
 // ---------------------------------------------------------------- generation
@@ -220,4 +248,23 @@ func genBlockReq(r *vh.Rand) string {
 		p = "0"
 	}
 	return "br " + g + "|" + p + "|" + rules() + "|" + rules() + "|" + vh.Hex(cip)
+}
+
+// renderAccept / renderBlockReq also check the side of the contract the server relies on besides the return
+// code: a refused connection / request carries ErrBlock.
+func renderAccept(ret int, s *bfe_basic.Session) string {
+	out := render(ret, nil)
+	_, err := s.GetError()
+	if (out == "close") != (err == mod_block.ErrBlock) {
+		out += ":errcode"
+	}
+	return out
+}
+
+func renderBlockReq(ret int, resp *bfe_http.Response, req *bfe_basic.Request) string {
+	out := render(ret, resp)
+	if (out == "close") != (req.ErrCode == mod_block.ErrBlock) {
+		out += ":errcode"
+	}
+	return out
 }
